@@ -2,7 +2,12 @@
 """C20 - the auto-reloader never loses a reload request (DESIGN.md §3 C20).
 
 The harness bin c20 (hook H3) is a deterministic scheduler around the real AutoReloader: worker threads
-park at every lock acquisition, a controller releases one at a time.  This check enumerates ALL
+park at every lock acquisition AND inside the user callbacks (freshness callback, on-should-reload callback: they
+run with the notifier mutex held and may take arbitrarily long), a controller releases one at a time.  While a
+thread is parked inside a callback, a thread that is about to take the notifier mutex is released speculatively:
+the controller observes (kernel thread state) whether it goes to sleep on the mutex (event BLOCKED, the model's
+LBlocked) or gets past the lock attempt - a lock attempt that neither acquires nor blocks (try_lock) is then an
+ordinary, visible step that the model rejects and the spec judges.  This check enumerates ALL
 schedules of small thread configurations (2 request_reload + 2 acquire_env exhaustively in quick,
 3 + 3 sampled; thorough: 3 + 3 exhaustively for the layouts where that is feasible), and for every
 observed trace
@@ -321,13 +326,15 @@ def main():
     chk = Check("C20", "proof")
     chk.cov["trusted_base"] = TRUSTED_COMMON + [
         "hook H3 (cargo feature verif_hooks of minijinja-autoreload): yield points before each lock acquisition and around the creator call; "
-        "the scheduler in harness/src/bin/c20.rs (one thread runs at a time, cache-mutex availability tracked from the observed events, watchdog on every hand-over)",
+        "the scheduler in harness/src/bin/c20.rs (one thread runs at a time, cache-mutex availability tracked from the observed events, notifier-mutex availability = a thread is parked inside "
+        "a user callback, blocked-vs-progressed decided from /proc/self/task/<tid>/stat (3 consecutive 'S' readings while the thread has not parked), at most one thread asleep on the notifier mutex, watchdog on every hand-over)",
         "std::sync::Mutex is a mutex; behaviour of the `notify` crate (file watcher calls the same flag-setting section as request_reload) is not exercised",
         "Print Assumptions: all theorems closed under the global context (no axioms)"]
     chk.assumptions = [
         "modelled: AutoReloader::acquire_env, EnvironmentGuard, Notifier::{request_reload, should_reload, fast_reload, prepare_and_mark_reload, restore_reload} at lock-acquisition granularity; "
         "threads and operations unbounded in the proofs; fast_reload / callbacks are fixed before the threads start in the enumerated runs",
-        "the creator and the callbacks do not touch the reloader except through request_reload (a creator that calls acquire_env self-deadlocks on the cache mutex by construction)",
+        "the creator does not touch the reloader except through request_reload (a creator that calls acquire_env self-deadlocks on the cache mutex by construction); the freshness and on-should-reload "
+        "callbacks do not call into the notifier (they run with its mutex held: re-entrant calls dead-lock by construction) but are preemptible: every other thread may run, or try to take the mutex, while one is inside",
         "an environment 'reflects a request' iff it was created (creator started) or its templates were cleared after the request's flag-set section completed",
         "file-change notifications run the same two lock sections as request_reload (with_fs_watcher callback) and are represented by it"]
     ok_models, blog = build_models("C20")
@@ -446,12 +453,12 @@ def main():
     chk.cov["evaluations"] = runs
     chk.cov["distinct_nontrivial"] = len(nontriv)
     chk.cov["distinct_traces"] = len(distinct)
-    chk.cov["rule"] = ("every maximal schedule (at lock-acquisition granularity) of each listed thread configuration is executed on the real AutoReloader "
+    chk.cov["rule"] = ("every maximal schedule (at lock-acquisition granularity, user callbacks preemptible with the notifier mutex held, incl. speculative lock attempts of one other thread during a callback) of each listed thread configuration is executed on the real AutoReloader "
                        "(stateless DFS over the enabled threads at each step) for: all 1+1/1+2/2+1/1+3 layouts x fast reload x 4 freshness-callback modes x on_should_reload callback x 8 creator scripts "
                        "(release and debug build), all 2 request + 2 acquire layouts x fast reload x freshness modes x 5 creator scripts; 3 requests + 3 acquires: "
                        + ("exhaustively for the 2- and 3-thread layouts and the 4-thread layout, seeded random schedules for the 6-thread layouts" if chk.thorough else "seeded random schedules")
                        + ". distinct = distinct (configuration, event trace); non-trivial = distinct trace in which at least one request's flag-set takes effect while another "
-                       "operation holds the cache mutex or inside the running creator (i.e. not a sequential history)")
+                       "operation holds the cache mutex or inside the running creator, or a thread goes to sleep on the notifier mutex while another one is inside a callback (i.e. not a sequential history)")
     chk.cov["exhaustive"] = False
     chk.cov["exhaustive_part"] = {"runs": ex_runs, "truncated_enumerations": truncated,
                                   "complete": truncated == 0 and not broken, "what": "all schedules of every configuration labelled small / 2+2" + (" / 3+3" if chk.thorough else "")}
